@@ -322,4 +322,49 @@ example : utilOk { refPickFour with body := refPickFour.body.set 4 (.bind "c" (.
 example : runPick ⟨fun _ => none, fun _ => none⟩ refPickFour 5 3 [27, 194] = Signed.pickFour 5 [27, 194] :=
   link_pick_four _ refPickFour (by decide) rfl 5 [27, 194] 3 (by decide)
 
+/-! ### `weight_conversion` -/
+
+/-- **Link, `weight_conversion`.**  If the generated obligations hold (`dispatchOk` for the routine, `utilOk` for the three
+utilities it calls, found in the table under their own names), the extracted dispatch returns what `Thresh.weightConversion`
+returns: the `binarize` / `normalize` / `invert` of the matrix for the three commands, `NotImplementedError` otherwise. -/
+theorem link_weight_conversion (o : Oracles) (ir : DispatchIR) (hok : dispatchOk ir = true)
+    (fb fn fi : FnIR) (hb : utilOk fb = true) (hn : utilOk fn = true) (hi : utilOk fi = true)
+    (nb : fb.name = "binarize") (nn : fn.name = "normalize") (ni : fi.name = "invert")
+    (W : AMat ℚ n) (wcm : String) (c : Bool) (ds : List ℕ) :
+    runDispatch o [fb, fn, fi] ir (embQ W) wcm c ds =
+      match Thresh.weightConversion W wcm with
+      | .ok (some R) => .mat (embQ R)
+      | .ok none => .mat (AMat.ofFn fun _ _ => SV.nan)
+      | .error e => .raise e := by
+  have hir : ir = refWeightConversion := by simpa [dispatchOk] using hok
+  subst hir
+  have eb := ir_of_utilOk fb hb refBinarize (by decide) nb
+  have en := ir_of_utilOk fn hn refNormalize (by decide) nn
+  have ei := ir_of_utilOk fi hi refInvert (by decide) ni
+  subst eb en ei
+  simp only [runDispatch, refWeightConversion, Thresh.weightConversion]
+  by_cases h1 : wcm = "binarize"
+  · subst h1
+    simp [refBinarize, refNormalize, refInvert, run_binarize o W c ds]
+    exact run_binarize o W c ds
+  · by_cases h2 : wcm = "normalize"
+    · subst h2
+      simp [refBinarize, refNormalize, refInvert]
+      have := run_normalize o W c ds
+      cases hnm : Thresh.normalize W <;> simp [hnm] at this ⊢ <;> exact this
+    · by_cases h3 : wcm = "lengths"
+      · subst h3
+        simp [refBinarize, refNormalize, refInvert]
+        exact run_invert o W c ds
+      · have e1 : ("binarize" == wcm) = false := by simpa using fun e => h1 e.symm
+        have e2 : ("normalize" == wcm) = false := by simpa using fun e => h2 e.symm
+        have e3 : ("lengths" == wcm) = false := by simpa using fun e => h3 e.symm
+        simp [List.find?, e1, e2, e3, h1, h2, h3]
+
+example : dispatchOk refWeightConversion = true := by decide
+/-- `'lengths'` dispatched to `normalize` is rejected -/
+example : dispatchOk { refWeightConversion with
+    arms := [⟨"binarize", "binarize", ["W", "copy"]⟩, ⟨"normalize", "normalize", ["W", "copy"]⟩, ⟨"lengths", "normalize", ["W", "copy"]⟩] } = false := by
+  decide
+
 end Bct.Cores.Util
